@@ -222,6 +222,12 @@ class ListRef:
     def py_getitem(self, it, i, node=None):
         return self.cur().py_getitem(it, i, node)
 
+    def py_len(self, it):
+        return self.cur().py_len(it)
+
+    def py_truth(self, it):
+        return self.cur().py_truth(it)
+
 
 class ListVal:
     """list value (elements array, length) detached from the table"""
